@@ -11,7 +11,7 @@ from ..pxv import Obj, Sym
 from ..su import norm
 from ..te import ClassRef, Member, TypeRef
 from .app_rx import APP, NAMED, PARAMS_SENT, ROLES_SENT, VERSIONS, app_cls, explore_callback, rx_fields
-from .util import const, fut, self_obj, text
+from .util import const, fut, same_class, self_obj, text
 
 BUSY = ("ZIGBEE_MAX_MESSAGE_LIMIT_REACHED", "TRANSMIT_BUSY", "ALLOCATION_FAILED")
 
@@ -49,7 +49,7 @@ def explore_send_packet(ctx, addr_mode, statuses, confirm, ext=False, sr=None, d
               ("asyncio.sleep", Outcomes(OK(None))),
               ("with:self._pending.new", lambda px, t, a, k, fr: Obj(TypeRef("Request"), {"result": fut("confirmation")}, tag="req")),
               ("await:confirmation", confirm)]
-    px = PX(repo, models=models, inline=lambda g, aw: g.name in ("from_ember_status", "is_controller_running", "controller_event"),
+    px = PX(repo, models=models, inline=same_class(stop=("_handle_frame_sent",)),
             facts={"self.config[zigpy.config.CONF_SOURCE_ROUTING]": False}, max_paths=4000)
     cls = app_cls(ctx)
 
@@ -257,7 +257,7 @@ def r12_3(ctx):
         rx0 = list(tx[2].values())[0]
         st_in = es["SUCCESS"] if getattr(rx0, "name", "") == "EmberStatus" else sl["OK"]
         st_busy = es["NETWORK_BUSY"] if getattr(rx0, "name", "") == "EmberStatus" else sl["ZIGBEE_MAX_MESSAGE_LIMIT_REACHED"]
-        px = PX(repo, models=[("self.sendUnicast", Outcomes(OK((st_in, Sym("seq"))), OK((st_busy, Sym("seq")))))], inline=lambda g, aw: g.name == "from_ember_status")
+        px = PX(repo, models=[("self.sendUnicast", Outcomes(OK((st_in, Sym("seq"))), OK((st_busy, Sym("seq")))))], inline=same_class())
         for p in px.explore(w, lambda: (self_obj(c, {}), {"nwk": Sym("dest"), "aps_frame": Sym("aps"), "message_tag": Sym("tag"), "data": Sym("data")})):
             ctx.paths += 1
             call = [e for e in p.events if e.kind == "await" and e.what == "self.sendUnicast"]
@@ -320,7 +320,7 @@ def r12_3(ctx):
     mt = repo.cls(NAMED, "EmberOutgoingMessageType").members()["OUTGOING_DIRECT"]
     for scen, dest, tag in (("own", 0x1234, 7), ("other-tag", 0x1234, 8), ("other-dest", 0x9999, 7), ("unknown", 1, 2)):
         for done in (False, True):
-            px = PX(repo, inline=lambda g, aw: False, models=[("*.set_result", Outcomes(RAISE("InvalidStateError")) if done else Outcomes(OK(None)))])
+            px = PX(repo, inline=same_class(), models=[("*.set_result", Outcomes(RAISE("InvalidStateError")) if done else Outcomes(OK(None)))])
 
             def setup():
                 reqs = {(0x1234, 7): Obj(TypeRef("Request"), {"result": fut("own_future")}, tag="own_req"),
